@@ -5,10 +5,57 @@ HERE = os.path.dirname(os.path.dirname(os.path.abspath(__file__)))
 
 CHECKS = {
  # id: (level, technique, level_text, level_note, design_ref)
+ "C01": ("exploration", "reference-model monitor over an execution log written by target bodies + differential comparison with from-scratch builds",
+   "Real dawn.Load+Run on generated multi-package projects driven through generated histories of edits and builds (full, sub-target, failing, always, dry, fresh-process). A state-based reference model fed only by the execution log the bodies write decides, after every build that reports success, whether each target of the closure has executed since the present state of its inputs; generated files are compared byte-for-byte with a from-scratch build of a copy. Held on the histories explored.",
+   "Trusts the generator's knowledge of which definitions a function references, the v.body builtin and the model (state based, ~150 lines). Edits to unrelated code in the same file create no expectation.", "DESIGN.md §5 C01"),
+ "C02": ("exploration", "reference-model monitor (forbidden-execution oracle) over the execution log, fresh loads in-process and in fresh processes",
+   "Same engine with irrelevant edits over-sampled: a body that starts although the model says the target and all its inputs are unchanged since its last successful execution (judged against the state before the build) is a violation. Every build is preceded by a fresh load, a third of them in a fresh process.",
+   "Same trusted base as C01; edits in a file visible to a target that do not change its own definitions are 'uncertain' (no expectation).", "DESIGN.md §5 C02"),
+ "C03": ("fault_enumeration", "crash-point enumeration with SIGKILL injection at named hooks, recovery in a fresh process judged by the reference model and a from-scratch build",
+   "Per scenario a counting run lists every hit of every named crash point (record mkdir/create/write/close/rename, index create/write, evaluation enter/deps-done/before-body/after-body/after-save, body start/middle/end) per target; one child per distinct (point,label,n) is SIGKILLed exactly there at limits 1 and 4, then a fresh process loads and rebuilds. Also every failure pattern of one body and sampled pairs. Exhaustive per scenario over the named points; scenarios are generated.",
+   "Crash = kill -9 of the process (no power-loss model). Crash points are the ones named by the verif hooks plus the body points.", "DESIGN.md §5 C03"),
+ "C04": ("exploration", "assertion monitors in harness Targets/Target at the runner's client boundary, schedule perturbation at hook yield points, Go race detector",
+   "runner.Run driven over generated acyclic graphs at limits 1,2,3,4,8,16 (CPU affinity) under PRNG schedules; the harness asserts load/evaluate at most once, dependency finished before the dependent continues, outcome identity by pointer, Run's result. Repeated under -race.",
+   "Trusts the harness counters (atomics) and the graph generator.", "DESIGN.md §5 C04"),
+ "C05": ("exploration", "exhaustive small-graph sweep + random cyclic graphs under perturbed schedules; termination decided by the Go runtime deadlock detector and a quiescence monitor",
+   "Every directed graph on <=3 (quick) / <=4 (thorough) nodes incl. self-loops plus random graphs with planted cycles, at limits 1,2,16, in children that use no timers so that the runtime's deadlock detector fires; fatal errors (stack overflow) name their case through the journal; cyclicity computed independently; -race children use goroutine dumps.",
+   "Termination is restated as: no runtime-detected deadlock, no fatal error, all requested target goroutines finish after Run (bounded spin).", "DESIGN.md §5 C05"),
+ "C06": ("exploration", "counter/event monitors on real dawn.Load over generated load graphs with yields between load statements; runtime deadlock detector; race detector",
+   "Generated load graphs (shared helpers that load other helpers, self-loads, 2..6-cycles, package files loading each other) x schedules; v.tick counters and ModuleLoading events (at most once), expected targets/flags for acyclic graphs, cyclic-dependency error for cyclic ones.",
+   "Trusts the load-graph generator and its DFS.", "DESIGN.md §5 C06"),
  "C07": ("exploration", "differential round-trip monitor with structural-isomorphism oracle over generated values",
-         "Encode/Decode of the real codec is executed on an exhaustive (container kind x size class x nesting position) matrix, every integer 0..70000 and all width boundaries, string length classes, aliasing/cycle patterns and PRNG-generated nested values; an isomorphism oracle compares type, structure, order and sharing. Held on the executions observed, not a proof.",
-         "Trusts the harness value generator and the isomorphism walk; tuples compared structurally; host-pickled objects never in cycles.",
-         "DESIGN.md §5 C07"),
+   "Encode/Decode of the real codec on an exhaustive (container kind x size class x nesting position) matrix, every integer 0..70000 and all width boundaries, string length classes, aliasing/cycle patterns and PRNG-generated nested values; the oracle compares type, structure, order and sharing.",
+   "Trusts the value generator and the isomorphism walk; tuples compared structurally; host-pickled objects never in cycles.", "DESIGN.md §5 C07"),
+ "C09": ("exploration", "shadow-state monitor of the gate under its own mutex (hook) + harness occupancy counter, limits via CPU affinity",
+   "Wide fans and meshes at limits 1,2,3,4,8,16: the number of targets inside LoadTarget/Evaluate but outside EvaluateTargets never exceeds the limit, shadow capacity stays in [0,limit], acquisitions = releases and capacity restored at quiescence; evidence counts how often the limit was reached.",
+   "Trusts the hook placement (inside gate.enter/exit under g.m) and that taskset sets runtime.NumCPU (asserted in the child).", "DESIGN.md §5 C09"),
+ "C10": ("exploration", "differential monitor against an independent reachability/max reference over generated universes (fake VCS dialer)",
+   "mvs.BuildList on generated universes (diamonds, cycles, @vN majors, pre-releases), resolved with fresh and warm caches and permuted requirement names, compared with a 25-line reference.",
+   "Trusts the fake repository and the reference.", "DESIGN.md §5 C10"),
+ "C11": ("exploration", "metamorphic/differential monitors over sequences of get/tidy/upgrade-all on generated universes; bounded-progress watchdog for termination",
+   "Sequences of operations with all query kinds; results re-resolved with BuildList and the reference; monotone assertions per path, name preservation, idempotence, resolved versions recomputed from the tag list; an operation that has not returned after 60 s inside the resolver is a violation.",
+   "Only monotone statements for upgrades; idempotence of a get that cannot land exactly on the resolved version is a known finding (named scenario) and not asserted for random cases.", "DESIGN.md §5 C11"),
+ "C12": ("exploration", "exhaustive enumeration of short label strings + builtin-driven confinement monitor on a loaded project",
+   "All strings over {a,b,/,:,.,@} up to length 7/9 parsed, printed, re-parsed (also after RelativeTo), canonical printing checked; (package,path) pairs through label(), path(), target(sources=,generates=) with resolved paths checked against the root; record files counted per label.",
+   "Exhaustive only up to the length bound and alphabet.", "DESIGN.md §5 C12"),
+ "C13": ("exploration", "effect monitors (execution log, tree hash around Run) + twin-history comparison + event-set comparison",
+   "Dry runs inserted into generated histories: no body executes, no file under the project or .dawn/build changes across Run, the evaluating set equals that of the real build performed next, a twin that skips the dry run behaves identically.",
+   "Same engine as C01.", "DESIGN.md §5 C13"),
+ "C14": ("exploration", "twin-history comparison + byte comparison of record files around GC",
+   "GC (after a full or index-preferring load) inserted at random points of one of two otherwise identical histories; records of existing labels survive byte-identical, records of removed labels and planted temporaries disappear, nothing outside .dawn/build changes, later builds execute the same bodies in both twins.",
+   "Expected record paths mirror dawn's path scheme (url.PathEscape of package/name).", "DESIGN.md §5 C14"),
+ "C16": ("exploration", "reconstruction oracle walking returned diff objects, over exhaustive short sequences and generated/mutated value pairs",
+   "Diff(a,b) on all pairs of words over {a,b} up to length 4 as string/bytes/tuple/list, generated nested values paired with mutated copies and unrelated values, and large pairs crossing the route-size fallback; all failed assertions of a case are reported. The rebuild reason of TargetEvaluating is checked against the delivered diff on generated project edits.",
+   "Trusts starlark.EqualDepth as the notion of equality.", "DESIGN.md §5 C16"),
+ "C17": ("exploration", "differential monitor against an independent recursive matcher; glob() and ignore lists on generated trees",
+   "Every single pattern up to 3/4 tokens against every path up to 4/5 characters (exhaustive), sampled lists of 2-3 patterns and longer random patterns, plus the glob() builtin and the ignore list on generated directory trees of a loaded project.",
+   "Unescaped [ ] and empty paths are outside the grammar.", "DESIGN.md §5 C17"),
+ "C19": ("exploration", "round-trip monitor (deep comparison + byte comparison) over generated configurations",
+   "Write/Load/Write on configs with hostile strings (quotes, control characters, Unicode, TOML-significant text, the empty string) in every position.",
+   "Strings are valid UTF-8.", "DESIGN.md §5 C19"),
+ "C20": ("exploration", "linearizability checking (porcupine) of recorded concurrent histories + direct counters, under the race detector",
+   "Short histories of concurrent once calls on the real Cache builtin (2-32 goroutines, 1-4 keys, failing callables) recorded at the client boundary and checked against the sequential specification partitioned by key.",
+   "Intervals of invoked operations are narrowed to the callable's execution (client code), which is sound.", "DESIGN.md §5 C20"),
 }
 PENDING = {}
 for i in range(1, 21):
